@@ -181,6 +181,16 @@ class FullGen(Gen):
         self.nstmts += 1
         k = r.randrange(16)
         top = indent == 0
+        if self.heap_heavy and self.p(0.12):
+            # the embedder re-enters eval_module from a native while these frames are running: several
+            # top-level statements (= GC safepoints) that allocate; locals of the running defs live across them
+            self.nnested = getattr(self, "nnested", 0) + 1
+            n = self.nnested
+            code = "NE%d = [str(i) * 3 for i in range(%d)]\\nNE%d_d = {\\\"k\\\": NE%d, \\\"n\\\": %d}\\nNE%d = None\\nlen(NE%d_d)\\n" % (n, r.randint(5, 60), n, n, n, n, n)
+            vs = [v for v in sc.all_vars()]
+            before = self.ch(vs).name if vs else "1"
+            self.emit_line(indent, "emit(eval_here(\"%s\"), %s)" % (code, before))
+            return
         if k == 0 and top and self.allow_type_decls and len(self.records) < 3:
             self.nrec += 1
             name = "R%d" % self.nrec
